@@ -157,4 +157,40 @@ def consAddPart (s : PartsState) (height round : Int) (p : Part) : PartsState ×
         else if r.2 == .added && isComplete r.1 then ({ s' with block := some (assemble r.1) }, .complete)
         else (s', if r.2 == .added then .added else .dup)
 
+/-! The gate in front of the header: `Proposal.ValidateBasic` (run on every proposal decoded from
+the wire, before `defaultSetProposal` builds `ProposalBlockParts` from its part-set header). Only a
+COMPLETE block id passes: a header without a root commits to nothing (see `verify`'s
+`bytes.Equal(nil, [])` corner). -/
+structure ProposalHdr where
+  isProposalType : Bool
+  height : Int
+  round : Int
+  polRound : Int
+  blockHash : Bytes
+  total : Nat
+  root : Bytes
+  sigLen : Nat
+deriving Repr
+
+inductive PropErr | type | height | round | pol | blockID | incomplete | sigMissing | sigTooBig
+deriving Repr, DecidableEq
+
+/-- `types.ValidateHash` -/
+def validateHash (h : Bytes) : Bool := h.length == 0 || h.length == hashSize
+/-- `BlockID.IsComplete` -/
+def isCompleteID (blockHash : Bytes) (total : Nat) (root : Bytes) : Bool :=
+  blockHash.length == hashSize && decide (0 < total) && root.length == hashSize
+def maxSignatureSize : Nat := 64     -- types.MaxSignatureSize = max(ed25519.SignatureSize, 64)
+
+def proposalValidateBasic (p : ProposalHdr) : Except PropErr Unit :=
+  if !p.isProposalType then .error .type
+  else if p.height < 0 then .error .height
+  else if p.round < 0 then .error .round
+  else if p.polRound < -1 then .error .pol
+  else if !(validateHash p.blockHash) || !(validateHash p.root) then .error .blockID
+  else if !(isCompleteID p.blockHash p.total p.root) then .error .incomplete
+  else if p.sigLen = 0 then .error .sigMissing
+  else if p.sigLen > maxSignatureSize then .error .sigTooBig
+  else .ok ()
+
 end Tmv.PartSet
